@@ -2,6 +2,7 @@ package main
 
 import (
 	"fmt"
+	"os"
 	"go/types"
 	"runtime/debug"
 	"strings"
@@ -56,6 +57,7 @@ type FnResult struct {
 }
 
 type verifyOpts struct {
+	recvIface types.Type
 	timeoutMs int
 	cexHook   func(e *Exec, st *State, o *Oblig) *Cex
 	logSMT    string
@@ -78,6 +80,12 @@ func verifyFunction(P *Program, db *ContractDB, fn *ssa.Function, c *Contract, v
 	e := &Exec{P: P, sol: sol, db: db, top: fn, topC: c, obligs: map[string]*Oblig{}, onceLv: []map[*Term]bool{{}}, inlined: map[string]bool{}, usedExt: map[string]bool{}, usedCtr: map[string]bool{}, loops: map[*ssa.Function]*LoopInfo{}, cexHook: vo.cexHook}
 	e.curTags = c.Tags
 	e.safeTags = c.SafeTags
+	e.recvIface = vo.recvIface
+	e.started = time.Now()
+	e.wallBudget = 150 * time.Second
+	if os.Getenv("GOVC_TRACE") != "" {
+		fmt.Fprintf(os.Stderr, "VERIFY %s\n", shortName(fn))
+	}
 	if shape != nil {
 		e.shape = shape.Name
 	}
@@ -89,7 +97,14 @@ func verifyFunction(P *Program, db *ContractDB, fn *ssa.Function, c *Contract, v
 			case specErr:
 				res.Errors = append(res.Errors, "contract error: "+x.msg)
 			default:
-				res.Errors = append(res.Errors, fmt.Sprintf("internal error: %v\n%s", r, debug.Stack()))
+				stk := string(debug.Stack())
+				if i := strings.Index(stk, "panic("); i >= 0 {
+					stk = stk[i:]
+				}
+				if len(stk) > 700 {
+					stk = stk[:700]
+				}
+				res.Errors = append(res.Errors, fmt.Sprintf("internal error: %v | %s", r, strings.ReplaceAll(stk, "\n", " ")))
 			}
 		}
 		for _, n := range e.order {
@@ -139,6 +154,10 @@ func verifyFunction(P *Program, db *ContractDB, fn *ssa.Function, c *Contract, v
 	// vacuity: the pre-condition must be satisfiable
 	if !sol.Feasible() {
 		res.Vacuity = "requires is unsatisfiable"
+		if vo.recvIface != nil {
+			res.Vacuity = "not covered by the interface contract's pre-condition (skipped)"
+			return
+		}
 		e.fail(shortName(fn)+"/VACUITY:requires", "VACUITY", "pre-condition unsatisfiable")
 		return
 	}
@@ -161,7 +180,11 @@ func verifyFunction(P *Program, db *ContractDB, fn *ssa.Function, c *Contract, v
 
 // entryCtx: spec context for requires (parameters = entry values)
 func (e *Exec) entryCtx(st *State, fr *Frame) *SpecCtx {
-	ctx := e.newSpecCtx(st, fr.fn.Pkg.Pkg, fr.entry)
+	pkg := e.pkgOf(e.topC)
+	if fr.fn.Pkg != nil {
+		pkg = fr.fn.Pkg.Pkg
+	}
+	ctx := e.newSpecCtx(st, pkg, fr.entry)
 	for _, p := range fr.fn.Params {
 		ctx.vars[p.Name()] = &specVar{v: fr.env[p], t: p.Type()}
 	}
@@ -170,6 +193,22 @@ func (e *Exec) entryCtx(st *State, fr *Frame) *SpecCtx {
 		pt := fv.Type().Underlying().(*types.Pointer).Elem()
 		cell := fr.env[fv]
 		ctx.vars[fv.Name()] = &specVar{get: func(c *SpecCtx) (Val, types.Type) { return c.loadAt(cell, pt), pt }}
+	}
+	// method / functype contracts name their parameters themselves
+	if fr.fn == e.top && e.topC != nil {
+		for i, p := range e.topC.Params {
+			if i < len(fr.fn.Params) {
+				v, t := fr.env[fr.fn.Params[i]], fr.fn.Params[i].Type()
+				if i == 0 && e.recvIface != nil {
+					// interface-method contract: the first parameter is the interface value
+					if _, isI := under(e.recvIface).(*types.Interface); isI {
+						v = e.makeIface(st, t, v)
+						t = e.recvIface
+					}
+				}
+				ctx.vars[p.Name] = &specVar{v: v, t: t}
+			}
+		}
 	}
 	return ctx
 }
@@ -181,6 +220,17 @@ func (e *Exec) topReturn(st *State, fr *Frame, res Val) {
 	c := e.topC
 	ctx := e.entryCtx(st, fr)
 	resultVars(ctx.vars, fr.fn.Signature, res)
+	if len(c.Results) > 0 {
+		list := []Val{res}
+		if tv, ok := res.(TupleVal); ok {
+			list = tv
+		}
+		for i, p := range c.Results {
+			if i < len(list) {
+				ctx.vars[p.Name] = &specVar{v: list[i], t: fr.fn.Signature.Results().At(i).Type()}
+			}
+		}
+	}
 	for _, q := range c.Ensures {
 		// each clause is proved on its own: proved clauses are not kept as
 		// assumptions (quantified lemmas make later queries unstable)
